@@ -1,6 +1,7 @@
 """Short-circuit value expressions: model M14 (coq/model/ShortCircuit.v = the BinaryExpr case of
 RootAssertionNode.AddComputation, evaluated inside Coq by vm_compute) against the real tool.  Random trees of `&&` / `||`
-over nil checks, opaque booleans and dereferences of two pointer parameters, as a returned value, a right-hand side or an
+over nil checks (in every shape AddNilCheck recognises through its recursion: either operand order, negations,
+comparisons with boolean constants, nested), opaque booleans and dereferences of two pointer parameters, as a returned value, a right-hand side or an
 argument, every leaf on a source line of its own; callers pass nil.  Compared per variable (the engine explains one of
 several dereferences of one parameter): the variables with a reported dereference == the variables of `reported e`."""
 import os
@@ -17,7 +18,7 @@ def gen(rng, depth, counter, nv=2, no=2):
     if depth == 0 or rng.random() < 0.3:
         k = rng.random()
         if k < 0.4:
-            return ("chk", rng.randrange(nv), rng.random() < 0.5)
+            return ("chk", rng.randrange(nv), gen_ncond(rng))
         if k < 0.55:
             return ("opq", rng.randrange(no))
         counter[0] += 1
@@ -25,9 +26,38 @@ def gen(rng, depth, counter, nv=2, no=2):
     return ("and" if rng.random() < 0.5 else "or", gen(rng, depth - 1, counter, nv, no), gen(rng, depth - 1, counter, nv, no))
 
 
+def gen_ncond(rng, depth=None):
+    """a nested condition about one pointer: the shapes AddNilCheck recognises through its recursion"""
+    depth = rng.choice([0, 0, 0, 1, 1, 2]) if depth is None else depth
+    if depth == 0:
+        return ("atom", rng.random() < 0.5, rng.random() < 0.3)
+    if rng.random() < 0.4:
+        return ("not", gen_ncond(rng, depth - 1))
+    return ("eqb", gen_ncond(rng, depth - 1), rng.random() < 0.5, rng.random() < 0.5, rng.random() < 0.3)
+
+
+def ncond_coq(c):
+    b = lambda x: "true" if x else "false"
+    if c[0] == "atom":
+        return "(NAtom %s %s)" % (b(c[1]), b(c[2]))
+    if c[0] == "not":
+        return "(NNot %s)" % ncond_coq(c[1])
+    return "(NEqB %s %s %s %s)" % (ncond_coq(c[1]), b(c[2]), b(c[3]), b(c[4]))
+
+
+def ncond_go(c, v):
+    if c[0] == "atom":
+        op = "==" if c[1] else "!="
+        return "nil %s p%d" % (op, v) if c[2] else "p%d %s nil" % (v, op)
+    if c[0] == "not":
+        return "!(%s)" % ncond_go(c[1], v)
+    op, k = ("!=" if c[2] else "=="), ("true" if c[3] else "false")
+    return "%s %s (%s)" % (k, op, ncond_go(c[1], v)) if c[4] else "(%s) %s %s" % (ncond_go(c[1], v), op, k)
+
+
 def coq(e):
     if e[0] == "chk":
-        return "(SChk %d %s)" % (e[1], "true" if e[2] else "false")
+        return "(SCond %d (cond_of %s))" % (e[1], ncond_coq(e[2]))
     if e[0] == "opq":
         return "(SOpq %d)" % e[1]
     if e[0] == "der":
@@ -38,7 +68,7 @@ def coq(e):
 def golines(e, ind):
     t = "\t" * ind
     if e[0] == "chk":
-        return [t + "p%d %s nil" % (e[1], "==" if e[2] else "!=")]
+        return [t + ncond_go(e[2], e[1])]
     if e[0] == "opq":
         return [t + "c%d" % e[1]]
     if e[0] == "der":
@@ -84,12 +114,16 @@ def module(cases, ctxs, d):
     return where
 
 
+def COQDIR():
+    return common.COQ
+
+
 def run_model(cases, workdir):
-    v = ["From NM Require Import ShortCircuit.", "Require Import List. Import ListNotations.",
+    v = ["From NM Require Import ShortCircuit.", "From NP Require Import ShortCircuitCmp.", "Require Import List. Import ListNotations.",
          "Definition cases : list sexp := [", ";\n".join("  " + coq(e) for e in cases), "].",
          "Definition out := Eval vm_compute in map (fun e => reported e ++ [if left_pure e then 9001 else 9000]) cases.", "Print out."]
     open(os.path.join(workdir, "sc_cases.v"), "w").write("\n".join(v) + "\n")
-    p = subprocess.run(["coqc", "-Q", os.path.join(common.COQ, "model"), "NM", "sc_cases.v"], cwd=workdir, capture_output=True, text=True, timeout=900)
+    p = subprocess.run(["coqc", "-Q", os.path.join(COQDIR(), "model"), "NM", "-Q", os.path.join(COQDIR(), "gen"), "NG", "-Q", os.path.join(COQDIR(), "proofs"), "NP", "sc_cases.v"], cwd=workdir, capture_output=True, text=True, timeout=900)
     if p.returncode != 0:
         return None, (p.stderr + p.stdout)[-500:]
     txt = " ".join(p.stdout.split())
